@@ -439,50 +439,113 @@ theorem cacheProv_addOrUpdate (hist : List Delivery) (c : Cache) (d : Delivery) 
     (queryCacheForService s now ty ch).1.cache = s.cache := by
   simp only [queryCacheForService, addPendings_cache, markResolved_cache]
 
-/-! ### where `resolved` events come from -/
+/-! ### where `resolved` and `removed` events come from -/
+
+/-- Why `evict_expired_services` reports `(ty, inst)` at `now` on the cache `c`: a PTR entry of
+    `ty` points to `inst` and either that entry has expired, or the instance has SRV entries
+    and all of them have expired. -/
+def EvictWhy (c : Cache) (now : Nat) (ty inst : BList) : Prop :=
+  ∃ es, (ty, es) ∈ c.ptr ∧ ∃ e ∈ es, aliasOf e = some inst ∧
+    (e.record.expires ≤ now ∨ ∃ l, c.srv.get inst = some l ∧ ∀ x ∈ l, x.record.expires ≤ now)
+
+/-- Why `resolve_updated_instances` reports `(ty, inst)` in state `s`: the instance had been
+    reported resolved, a usable PTR of the browsed `ty` still points to it, and it can no
+    longer be resolved from the cache (no usable SRV, or no usable address of its host). -/
+def UnresolveWhy (s : State) (now : Nat) (ty inst : BList) : Prop :=
+  inst ∈ s.resolved ∧ (∃ es, (ty, es) ∈ s.cache.ptr ∧ ∃ e ∈ es, aliasOf e = some inst ∧ usable now e = true) ∧
+  (resolveFromCache s.cache now ty inst).valid = false
+
+def RemovedWhy (P : Cache → Prop) (now : Nat) (ty inst : BList) : Prop :=
+  (∃ c, P c ∧ EvictWhy c now ty inst) ∨ (∃ s' : State, P s'.cache ∧ UnresolveWhy s' now ty inst)
 
 /-- Every `ServiceResolved` among `outs` is the result of `resolve_service_from_cache` on a
-    cache satisfying `P`, and it is valid. -/
+    cache satisfying `P`, and it is valid; every `ServiceRemoved` has one of the two reasons
+    above on a cache satisfying `P`. -/
 def OutsOk (P : Cache → Prop) (now : Nat) (outs : List Out) : Prop :=
-  ∀ ch r, Out.event ch (.resolved r) ∈ outs →
-    ∃ c ty inst, P c ∧ r = resolveFromCache c now ty inst ∧ r.valid = true
+  (∀ ch r, Out.event ch (.resolved r) ∈ outs →
+    ∃ c ty inst, P c ∧ r = resolveFromCache c now ty inst ∧ r.valid = true) ∧
+  (∀ ch ty inst, Out.event ch (.removed ty inst) ∈ outs → RemovedWhy P now ty inst)
 
-/-- no `ServiceResolved` among `outs` -/
-def NoRes (outs : List Out) : Prop := ∀ ch r, Out.event ch (.resolved r) ∉ outs
+/-- neither `ServiceResolved` nor `ServiceRemoved` among `outs` -/
+def NoRes (outs : List Out) : Prop :=
+  (∀ ch r, Out.event ch (.resolved r) ∉ outs) ∧ (∀ ch ty inst, Out.event ch (.removed ty inst) ∉ outs)
 
 theorem NoRes.ok {P : Cache → Prop} {now : Nat} {outs : List Out} (h : NoRes outs) : OutsOk P now outs :=
-  fun ch r hm => absurd hm (h ch r)
+  ⟨fun ch r hm => absurd hm (h.1 ch r), fun ch ty inst hm => absurd hm (h.2 ch ty inst)⟩
 
-theorem OutsOk.nil (P : Cache → Prop) (now : Nat) : OutsOk P now [] := fun _ _ h => by cases h
+theorem OutsOk.nil (P : Cache → Prop) (now : Nat) : OutsOk P now [] :=
+  ⟨fun _ _ h => (by cases h), fun _ _ _ h => (by cases h)⟩
 
 theorem OutsOk.append {P : Cache → Prop} {now : Nat} {a b : List Out} (ha : OutsOk P now a) (hb : OutsOk P now b) :
     OutsOk P now (a ++ b) := by
-  intro ch r h
-  rcases List.mem_append.mp h with h | h
-  · exact ha ch r h
-  · exact hb ch r h
+  refine ⟨?_, ?_⟩
+  · intro ch r h
+    rcases List.mem_append.mp h with h | h
+    · exact ha.1 ch r h
+    · exact hb.1 ch r h
+  · intro ch ty inst h
+    rcases List.mem_append.mp h with h | h
+    · exact ha.2 ch ty inst h
+    · exact hb.2 ch ty inst h
+
+theorem RemovedWhy.mono {P Q : Cache → Prop} (hPQ : ∀ c, P c → Q c) {now : Nat} {ty inst : BList}
+    (h : RemovedWhy P now ty inst) : RemovedWhy Q now ty inst := by
+  rcases h with ⟨c, hc, hw⟩ | ⟨s', hc, hw⟩
+  · exact Or.inl ⟨c, hPQ c hc, hw⟩
+  · exact Or.inr ⟨s', hPQ _ hc, hw⟩
 
 theorem OutsOk.mono {P Q : Cache → Prop} (hPQ : ∀ c, P c → Q c) {now : Nat} {outs : List Out} (h : OutsOk P now outs) :
     OutsOk Q now outs := by
+  refine ⟨?_, fun ch ty inst hm => (h.2 ch ty inst hm).mono hPQ⟩
   intro ch r hm
-  obtain ⟨c, ty, inst, hc, h1, h2⟩ := h ch r hm
+  obtain ⟨c, ty, inst, hc, h1, h2⟩ := h.1 ch r hm
   exact ⟨c, ty, inst, hPQ c hc, h1, h2⟩
 
 theorem NoRes.append {a b : List Out} (ha : NoRes a) (hb : NoRes b) : NoRes (a ++ b) := by
-  intro ch r h
-  rcases List.mem_append.mp h with h | h
-  · exact ha ch r h
-  · exact hb ch r h
+  refine ⟨?_, ?_⟩
+  · intro ch r h
+    rcases List.mem_append.mp h with h | h
+    · exact ha.1 ch r h
+    · exact hb.1 ch r h
+  · intro ch ty inst h
+    rcases List.mem_append.mp h with h | h
+    · exact ha.2 ch ty inst h
+    · exact hb.2 ch ty inst h
 
-theorem noRes_nil : NoRes [] := fun _ _ h => by cases h
+theorem noRes_nil : NoRes [] := ⟨fun _ _ h => (by cases h), fun _ _ _ h => (by cases h)⟩
 
-theorem noRes_notifyRemoval (q : List (BList × Nat)) (e : List (BList × BList)) : NoRes (notifyRemoval q e) := by
-  intro ch r h
-  simp [notifyRemoval] at h
+/-- closes `NoRes l` when membership of a resolved / removed event in `l` simplifies to `False` -/
+macro "nores" : tactic =>
+  `(tactic| (refine ⟨?_, ?_⟩ <;> (intros; intro h; simp at h)))
 
 theorem noRes_sendQuery (c : Cache) (now : Nat) (qs : List (BList × Nat)) : NoRes [sendQuery c now qs] := by
-  intro ch r h
-  simp [sendQuery] at h
+  refine ⟨?_, ?_⟩ <;> (intros; intro h; simp [sendQuery] at h)
+
+theorem mem_notifyRemoval (q : List (BList × Nat)) (e : List (BList × BList)) (ch : Nat) (ty inst : BList)
+    (h : Out.event ch (.removed ty inst) ∈ notifyRemoval q e) : (ty, inst) ∈ e ∧ (ty, ch) ∈ q := by
+  simp only [notifyRemoval, List.mem_flatMap, List.mem_map, List.mem_eraseDups, List.mem_filter] at h
+  obtain ⟨qq, hq, i, ⟨pp, ⟨hp, hk⟩, hi⟩, he⟩ := h
+  cases he
+  have hk' : pp.1 = qq.1 := by simpa using hk
+  subst hi
+  refine ⟨?_, hq⟩
+  rw [← hk']
+  exact hp
+
+theorem noResolved_notifyRemoval (q : List (BList × Nat)) (e : List (BList × BList)) (ch : Nat) (r : Resolved) :
+    Out.event ch (.resolved r) ∉ notifyRemoval q e := by
+  intro h
+  simp [notifyRemoval] at h
+
+theorem mem_visits (s : State) (now : Nat) (u : List BList) (v : BList × Nat × BList) (h : v ∈ visits s now u) :
+    ∃ es, (v.1, es) ∈ s.cache.ptr ∧ ∃ e ∈ es, aliasOf e = some v.2.2 ∧ usable now e = true := by
+  simp only [visits, List.mem_flatMap] at h
+  obtain ⟨p, hp, hv⟩ := h
+  split at hv
+  · cases hv
+  · simp only [List.mem_map, List.mem_filter, List.mem_filterMap] at hv
+    obtain ⟨a, ⟨⟨e, ⟨he, huse⟩, ha⟩, _⟩, rfl⟩ := hv
+    exact ⟨p.2, hp, e, he, ha, huse⟩
 
 /-- `resolve_updated_instances`: its `ServiceResolved` events are valid results of
     `resolve_service_from_cache` on the current cache -/
@@ -493,26 +556,47 @@ theorem outsOk_resolveUpdated (P : Cache → Prop) (s : State) (now : Nat) (u : 
   · exact OutsOk.nil P now
   · simp only []
     apply OutsOk.append
-    · intro ch r hm
-      simp only [List.mem_map, List.mem_filter] at hm
-      obtain ⟨v, ⟨_, hv⟩, he⟩ := hm
+    · refine ⟨?_, ?_⟩
+      · intro ch r hm
+        simp only [List.mem_map, List.mem_filter] at hm
+        obtain ⟨v, ⟨_, hv⟩, he⟩ := hm
+        cases he
+        exact ⟨s.cache, v.1, v.2.2, h, rfl, hv⟩
+      · intro ch ty inst hm
+        simp at hm
+    · refine ⟨fun ch r hm => absurd hm (noResolved_notifyRemoval _ _ ch r), ?_⟩
+      intro ch ty inst hm
+      have hm' := (mem_notifyRemoval _ _ ch ty inst hm).1
+      simp only [List.mem_map, List.mem_filter] at hm'
+      obtain ⟨v, ⟨⟨hv, hbad⟩, hres⟩, he⟩ := hm'
       cases he
-      exact ⟨s.cache, v.1, v.2.2, h, rfl, hv⟩
-    · exact (noRes_notifyRemoval _ _).ok
+      obtain ⟨es, hes, e, he, ha, huse⟩ := mem_visits s now u v hv
+      refine Or.inr ⟨s, h, ?_, ⟨es, hes, e, he, ha, huse⟩, ?_⟩
+      · simpa using hres
+      · simpa [visitValid] using hbad
 
 theorem outsOk_queryCacheForService (P : Cache → Prop) (s : State) (now : Nat) (ty : BList) (chn : Nat) (h : P s.cache) :
     OutsOk P now (queryCacheForService s now ty chn).2 := by
-  intro ch r hm
-  simp only [queryCacheForService, List.mem_flatMap, List.mem_append, List.mem_singleton] at hm
-  obtain ⟨i, _, hm⟩ := hm
-  rcases hm with hm | hm
-  · cases hm
-  · split at hm
-    · rename_i hv
-      simp only [List.mem_singleton] at hm
-      cases hm
-      exact ⟨s.cache, ty, i, h, rfl, hv⟩
+  refine ⟨?_, ?_⟩
+  · intro ch r hm
+    simp only [queryCacheForService, List.mem_flatMap, List.mem_append, List.mem_singleton] at hm
+    obtain ⟨i, _, hm⟩ := hm
+    rcases hm with hm | hm
     · cases hm
+    · split at hm
+      · rename_i hv
+        simp only [List.mem_singleton] at hm
+        cases hm
+        exact ⟨s.cache, ty, i, h, rfl, hv⟩
+      · cases hm
+  · intro ch ty' inst hm
+    simp only [queryCacheForService, List.mem_flatMap, List.mem_append, List.mem_singleton] at hm
+    obtain ⟨i, _, hm⟩ := hm
+    rcases hm with hm | hm
+    · cases hm
+    · split at hm
+      · simp at hm
+      · cases hm
 
 /-! ### the phases after ingress, for any predicate on caches that survives lowering -/
 
@@ -524,10 +608,15 @@ theorem lowClosed_cacheProv (hist : List Delivery) : LowClosed (CacheProv hist) 
 /-- a phase keeps `P` and emits only justified `ServiceResolved` events -/
 def PhaseOk (P : Cache → Prop) (now : Nat) (r : State × List Out) : Prop := P r.1.cache ∧ OutsOk P now r.2
 
-theorem noRes_single (o : Out) (h : ∀ ch r, o ≠ .event ch (.resolved r)) : NoRes [o] := by
-  intro ch r hm
-  simp only [List.mem_singleton] at hm
-  exact h ch r hm.symm
+theorem noRes_single (o : Out) (h : ∀ ch r, o ≠ .event ch (.resolved r))
+    (h2 : ∀ ch ty inst, o ≠ .event ch (.removed ty inst)) : NoRes [o] := by
+  refine ⟨?_, ?_⟩
+  · intro ch r hm
+    simp only [List.mem_singleton] at hm
+    exact h ch r hm.symm
+  · intro ch ty inst hm
+    simp only [List.mem_singleton] at hm
+    exact h2 ch ty inst hm.symm
 
 theorem ok_execBrowse (P : Cache → Prop) (s : State) (now : Nat) (rep : Bool) (ty : BList) (d : Nat) (co : Bool)
     (ch : Nat) (hP : P s.cache) : PhaseOk P now (execBrowse s now rep ty d co ch) := by
@@ -536,22 +625,20 @@ theorem ok_execBrowse (P : Cache → Prop) (s : State) (now : Nat) (rep : Bool) 
   · simp only [Bool.false_eq_true, if_false]
     split
     · refine ⟨by simpa using hP, ?_⟩
-      refine OutsOk.append (OutsOk.append (noRes_single _ (by intro _ _ h; cases h)).ok ?_)
-        (noRes_single _ (by intro _ _ h; cases h)).ok
+      refine OutsOk.append (OutsOk.append (noRes_single _ (by intro _ _ h; cases h) (by intro _ _ _ h; cases h)).ok ?_)
+        (noRes_single _ (by intro _ _ h; cases h) (by intro _ _ _ h; cases h)).ok
       exact outsOk_queryCacheForService P _ now ty ch hP
     · refine ⟨by simpa using hP, ?_⟩
-      refine OutsOk.append (OutsOk.append (noRes_single _ (by intro _ _ h; cases h)).ok ?_) (noRes_sendQuery _ _ _).ok
+      refine OutsOk.append (OutsOk.append (noRes_single _ (by intro _ _ h; cases h) (by intro _ _ _ h; cases h)).ok ?_) (noRes_sendQuery _ _ _).ok
       exact outsOk_queryCacheForService P _ now ty ch hP
   · simp only [if_true]
     split
     · refine ⟨hP, ?_⟩
       apply NoRes.ok
-      intro c r h
-      simp at h
+      refine ⟨?_, ?_⟩ <;> (intros; intro h; simp at h)
     · refine ⟨hP, ?_⟩
       apply NoRes.ok
-      intro c r h
-      simp [sendQuery] at h
+      refine ⟨?_, ?_⟩ <;> (intros; intro h; simp [sendQuery] at h)
 
 theorem ok_execResolveHost (P : Cache → Prop) (s : State) (now : Nat) (rep : Bool) (host : BList) (d ch : Nat)
     (t : Option Nat) (hP : P s.cache) : PhaseOk P now (execResolveHost s now rep host d ch t) := by
@@ -563,11 +650,10 @@ theorem ok_execResolveHost (P : Cache → Prop) (s : State) (now : Nat) (rep : B
     · simp only [apply_ite State.cache, addRerun_cache, ite_self]
       exact hP
     · apply NoRes.ok
-      refine NoRes.append (NoRes.append (noRes_single _ (by intro _ _ h; cases h)) ?_) (noRes_sendQuery _ _ _)
+      refine NoRes.append (NoRes.append (noRes_single _ (by intro _ _ h; cases h) (by intro _ _ _ h; cases h)) ?_) (noRes_sendQuery _ _ _)
       split
       · exact noRes_nil
-      · intro c r h
-        simp at h
+      · refine ⟨?_, ?_⟩ <;> (intros; intro h; simp at h)
 
 theorem ok_execStopBrowse (P : Cache → Prop) (hL : LowClosed P) (s : State) (now : Nat) (ty : BList) (hP : P s.cache) :
     PhaseOk P now (execStopBrowse s ty) := by
@@ -575,7 +661,7 @@ theorem ok_execStopBrowse (P : Cache → Prop) (hL : LowClosed P) (s : State) (n
   split
   · exact ⟨hP, OutsOk.nil P now⟩
   · refine ⟨hL _ _ hP (cacheLow_removeServiceType s.cache ty), ?_⟩
-    exact (noRes_single _ (by intro _ _ h; cases h)).ok
+    exact (noRes_single _ (by intro _ _ h; cases h) (by intro _ _ _ h; cases h)).ok
 
 theorem ok_execStopResolve (P : Cache → Prop) (s : State) (now : Nat) (host : BList) (hP : P s.cache) :
     PhaseOk P now (execStopResolve s host) := by
@@ -583,7 +669,7 @@ theorem ok_execStopResolve (P : Cache → Prop) (s : State) (now : Nat) (host : 
   simp only []
   split
   · exact ⟨hP, OutsOk.nil P now⟩
-  · exact ⟨hP, (noRes_single _ (by intro _ _ h; cases h)).ok⟩
+  · exact ⟨hP, (noRes_single _ (by intro _ _ h; cases h) (by intro _ _ _ h; cases h)).ok⟩
 
 theorem ok_execResolveInst (P : Cache → Prop) (s : State) (now : Nat) (inst : BList) (k : Nat) (hP : P s.cache) :
     PhaseOk P now (execResolveInst s now inst k) := by
@@ -619,7 +705,7 @@ theorem ok_execCommand (P : Cache → Prop) (hL : LowClosed P) (s : State) (now 
   | stopResolve h => exact ok_execStopResolve P s now h hP
   | ipInterval ms => exact ⟨hP, OutsOk.nil P now⟩
   | verify inst t => exact ok_execVerify P hL s now false inst t hP
-  | metrics ch => exact ⟨hP, (noRes_single _ (by intro _ _ h; cases h)).ok⟩
+  | metrics ch => exact ⟨hP, (noRes_single _ (by intro _ _ h; cases h) (by intro _ _ _ h; cases h)).ok⟩
   | acceptUnsolicited on => exact ⟨hP, OutsOk.nil P now⟩
 
 theorem ok_execRerun (P : Cache → Prop) (hL : LowClosed P) (s : State) (now : Nat) (c : RCmd) (hP : P s.cache) :
@@ -656,15 +742,13 @@ theorem ok_rerunPhase (P : Cache → Prop) (hL : LowClosed P) (s : State) (now :
 
 theorem ok_runTimeouts (P : Cache → Prop) (s : State) (now : Nat) (hP : P s.cache) : PhaseOk P now (runTimeouts s now) := by
   refine ⟨hP, NoRes.ok ?_⟩
-  intro c r h
-  simp [runTimeouts] at h
+  refine ⟨?_, ?_⟩ <;> (intros; intro h; simp [runTimeouts] at h)
 
 /-! refresh -/
 
 theorem noRes_map_sendQuery {α} (l : List α) (f : α → Cache × List (BList × Nat)) (now : Nat) :
     NoRes (l.map fun a => sendQuery (f a).1 now (f a).2) := by
-  intro c r h
-  simp [sendQuery] at h
+  refine ⟨?_, ?_⟩ <;> (intros; intro h; simp [sendQuery] at h)
 
 theorem refreshType_ok (c : Cache) (now : Nat) (ty : BList) :
     CacheLow c (refreshType c now ty).1 ∧ NoRes (refreshType c now ty).2.1 := by
@@ -677,10 +761,8 @@ theorem refreshType_ok (c : Cache) (now : Nat) (ty : BList) :
     · split
       · exact noRes_nil
       · exact noRes_sendQuery _ _ _
-    · intro c r h
-      simp [sendQuery] at h
-    · intro c r h
-      simp [sendQuery] at h
+    · refine ⟨?_, ?_⟩ <;> (intros; intro h; simp [sendQuery] at h)
+    · refine ⟨?_, ?_⟩ <;> (intros; intro h; simp [sendQuery] at h)
 
 theorem refreshTypes_ok (now : Nat) : ∀ (l : List BList) (c : Cache),
     CacheLow c (refreshTypes c now l).1 ∧ NoRes (refreshTypes c now l).2.1
@@ -701,8 +783,7 @@ theorem refreshResolversGo_ok (now : Nat) : ∀ (l : List BList) (c : Cache),
   | h :: rest, c => by
     have h2 := refreshResolversGo_ok now rest (refreshDueResolutions c h now).1
     refine ⟨(cacheLow_refreshDueResolutions c h now).trans h2.1, NoRes.append ?_ h2.2⟩
-    intro c r hm
-    simp [sendQuery] at hm
+    refine ⟨?_, ?_⟩ <;> (intros; intro h; simp [sendQuery] at h)
 
 theorem ok_refreshResolvers (P : Cache → Prop) (hL : LowClosed P) (s : State) (now : Nat) (hP : P s.cache) :
     PhaseOk P now (refreshResolvers s now) := by
@@ -711,9 +792,96 @@ theorem ok_refreshResolvers (P : Cache → Prop) (hL : LowClosed P) (s : State) 
 
 /-! eviction -/
 
+theorem not_live_iff (now : Nat) (e : Entry) : live now e = false ↔ e.record.expires ≤ now := by
+  rw [← Bool.not_eq_true, live_iff]
+  omega
+
+/-- all SRV entries of `a` have expired (and there is an SRV name for it) -/
+def srvAllExpired (now : Nat) (srv : Table) (a : BList) : Bool :=
+  match srv.get a with
+  | some l => l.all fun x => !live now x
+  | none => false
+
+theorem reportSrv_cons_some (now : Nat) (srv : Table) (ty : BList) (e : Entry) (es : List Entry) (gone : List BList)
+    (a : BList) (h : aliasOf e = some a) :
+    reportSrv now srv ty (e :: es) gone =
+      if (!gone.contains a && srvAllExpired now srv a) = true then
+        ((ty, a) :: (reportSrv now srv ty es (a :: gone)).1, (reportSrv now srv ty es (a :: gone)).2)
+      else reportSrv now srv ty es gone := by
+  rw [reportSrv]
+  simp only [h, srvAllExpired]
+  rfl
+
+theorem reportSrv_cons_none (now : Nat) (srv : Table) (ty : BList) (e : Entry) (es : List Entry) (gone : List BList)
+    (h : aliasOf e = none) : reportSrv now srv ty (e :: es) gone = reportSrv now srv ty es gone := by
+  rw [reportSrv]
+  simp only [h]
+
+theorem reportSrv_sound (now : Nat) (srv : Table) (ty : BList) : ∀ (es : List Entry) (gone : List BList) (ty' a : BList),
+    (ty', a) ∈ (reportSrv now srv ty es gone).1 →
+    ty' = ty ∧ ∃ e ∈ es, aliasOf e = some a ∧ ∃ l, srv.get a = some l ∧ ∀ x ∈ l, x.record.expires ≤ now
+  | [], gone, ty', a, h => by simp [reportSrv] at h
+  | e :: es, gone, ty', a, h => by
+    have ih := fun g h' => reportSrv_sound now srv ty es g ty' a h'
+    have lift : (ty' = ty ∧ ∃ e' ∈ es, aliasOf e' = some a ∧ ∃ l, srv.get a = some l ∧ ∀ x ∈ l, x.record.expires ≤ now) →
+        ty' = ty ∧ ∃ e' ∈ e :: es, aliasOf e' = some a ∧ ∃ l, srv.get a = some l ∧ ∀ x ∈ l, x.record.expires ≤ now := by
+      rintro ⟨h1, e', he', h2⟩
+      exact ⟨h1, e', List.mem_cons_of_mem _ he', h2⟩
+    cases ha0 : aliasOf e with
+    | none =>
+      rw [reportSrv_cons_none now srv ty e es gone ha0] at h
+      exact lift (ih _ h)
+    | some a0 =>
+      rw [reportSrv_cons_some now srv ty e es gone a0 ha0] at h
+      by_cases hc : (!gone.contains a0 && srvAllExpired now srv a0) = true
+      · rw [if_pos hc] at h
+        simp only [List.mem_cons] at h
+        rcases h with h | h
+        · cases h
+          simp only [Bool.and_eq_true] at hc
+          refine ⟨rfl, e, List.mem_cons_self, ha0, ?_⟩
+          have h2 := hc.2
+          unfold srvAllExpired at h2
+          cases hg : srv.get a with
+          | none => simp [hg] at h2
+          | some l =>
+            refine ⟨l, rfl, ?_⟩
+            intro x hx
+            simp only [hg, List.all_eq_true] at h2
+            exact (not_live_iff now x).mp (by simpa using h2 x hx)
+        · exact lift (ih _ h)
+      · rw [if_neg hc] at h
+        exact lift (ih _ h)
+
+theorem evictReport_sound (now : Nat) (srv : Table) : ∀ (ptr : Table) (gone : List BList) (ty a : BList),
+    (ty, a) ∈ evictReport now srv ptr gone →
+    ∃ es, (ty, es) ∈ ptr ∧ ∃ e ∈ es, aliasOf e = some a ∧
+      (e.record.expires ≤ now ∨ ∃ l, srv.get a = some l ∧ ∀ x ∈ l, x.record.expires ≤ now)
+  | [], gone, ty, a, h => by simp [evictReport] at h
+  | p :: rest, gone, ty, a, h => by
+    unfold evictReport at h
+    simp only [List.mem_append] at h
+    rcases h with (h | h) | h
+    · obtain ⟨rfl, e, he, ha, hl⟩ := reportSrv_sound now srv p.1 p.2 gone ty a h
+      exact ⟨p.2, List.mem_cons_self, e, he, ha, Or.inr hl⟩
+    · simp only [List.mem_filterMap, List.mem_filter] at h
+      obtain ⟨e, ⟨he, hlive⟩, hm⟩ := h
+      cases ha : aliasOf e with
+      | none => simp [ha] at hm
+      | some a0 =>
+        simp only [ha, Option.map_some, Option.some.injEq, Prod.mk.injEq] at hm
+        obtain ⟨rfl, rfl⟩ := hm
+        exact ⟨p.2, List.mem_cons_self, e, he, ha, Or.inl ((not_live_iff now e).mp (by simpa using hlive))⟩
+    · obtain ⟨es, hes, hr⟩ := evictReport_sound now srv rest _ ty a h
+      exact ⟨es, List.mem_cons_of_mem _ hes, hr⟩
+
 theorem ok_evictServicesPhase (P : Cache → Prop) (hL : LowClosed P) (s : State) (now : Nat) (hP : P s.cache) :
-    PhaseOk P now (evictServicesPhase s now) :=
-  ⟨hL _ _ hP (cacheLow_evictServices s.cache now), (noRes_notifyRemoval _ _).ok⟩
+    PhaseOk P now (evictServicesPhase s now) := by
+  refine ⟨hL _ _ hP (cacheLow_evictServices s.cache now), ?_, ?_⟩
+  · exact fun ch r hm => absurd hm (noResolved_notifyRemoval _ _ ch r)
+  · intro ch ty inst hm
+    have hm' := (mem_notifyRemoval _ _ ch ty inst hm).1
+    exact Or.inl ⟨s.cache, hP, evictReport_sound now s.cache.srv s.cache.ptr [] ty inst hm'⟩
 
 theorem ok_evictAddrHosts (P : Cache → Prop) (now : Nat) (items : List (BList × BList × BList × Nat)) :
     ∀ (hosts : List BList) (s : State), P s.cache → PhaseOk P now (evictAddrHosts s now items hosts)
@@ -724,10 +892,9 @@ theorem ok_evictAddrHosts (P : Cache → Prop) (now : Nat) (items : List (BList 
     have h1 : P (resolveUpdated s now (instancesOnHost s.cache h)).1.cache := by simpa using hP
     have h2 := ok_evictAddrHosts P now items rest _ h1
     refine ⟨h2.1, OutsOk.append (OutsOk.append (NoRes.ok ?_) (outsOk_resolveUpdated P s now _ hP)) h2.2⟩
-    intro c r hm
-    split at hm
-    · cases hm
-    · simp at hm
+    split
+    · exact noRes_nil
+    · exact noRes_single _ (by intro _ _ h; cases h) (by intro _ _ _ h; cases h)
 
 theorem ok_evictAddrPhase (P : Cache → Prop) (hL : LowClosed P) (s : State) (now : Nat) (hP : P s.cache) :
     PhaseOk P now (evictAddrPhase s now) :=
@@ -777,7 +944,7 @@ theorem ingestOne_noRes (q : List (BList × Nat)) (ifName : BList) (ifIdx now : 
   repeat' split
   all_goals first
     | exact h
-    | exact h.append (noRes_single _ (by intro _ _ h; cases h))
+    | exact h.append (noRes_single _ (by intro _ _ h; cases h) (by intro _ _ _ h; cases h))
 
 theorem ingestAll_ok (hist : List Delivery) (q : List (BList × Nat)) (ifName : BList) (ifIdx now : Nat) (forUs : Bool) :
     ∀ (rs : List Wire.Rec) (acc : Ingest), (∀ r ∈ rs, (⟨now, ifName, ifIdx, r⟩ : Delivery) ∈ hist) →
@@ -793,12 +960,19 @@ theorem ingestAll_ok (hist : List Delivery) (q : List (BList × Nat)) (ifName : 
     · exact ingestOne_noRes q ifName ifIdx now forUs acc r h2
 
 theorem noRes_hostFoundOuts (s : State) (c : Cache) (changes : List (Nat × BList)) : NoRes (hostFoundOuts s c changes) := by
-  intro ch r h
-  simp only [hostFoundOuts, List.mem_flatMap] at h
-  obtain ⟨x, _, hx⟩ := h
-  split at hx
-  · cases hx
-  · simp at hx
+  refine ⟨?_, ?_⟩
+  · intro ch r h
+    simp only [hostFoundOuts, List.mem_flatMap] at h
+    obtain ⟨x, _, hx⟩ := h
+    split at hx
+    · cases hx
+    · simp at hx
+  · intro ch ty inst h
+    simp only [hostFoundOuts, List.mem_flatMap] at h
+    obtain ⟨x, _, hx⟩ := h
+    split at hx
+    · cases hx
+    · simp at hx
 
 theorem ok_handleResponse (hist : List Delivery) (s : State) (now : Nat) (intf : Intf) (m : Wire.Msg)
     (hd : ∀ d ∈ recDeliveries now intf m, d ∈ hist) (h : CacheProv hist s.cache) :
